@@ -136,6 +136,13 @@ where
         self.map.num_entries_or_locked()
     }
 
+    /// Verification hook: snapshot of the internal state.
+    #[cfg(feature = "verif_hooks")]
+    #[doc(hidden)]
+    pub fn verif_snapshot(&self) -> crate::verif_hooks::Snapshot<K, ()> {
+        self.map.verif_snapshot()
+    }
+
     /// Lock a key and return a guard for it.
     ///
     /// Locking a key prevents any other threads from locking the same key.
